@@ -190,3 +190,62 @@ Lemma cmp_int_int a b :
   (num_le (NInt a) (NInt b) = true <-> a <= b) /\
   (num_eq (NInt a) (NInt b) = true <-> a = b).
 Proof. cbn. rewrite Z.ltb_lt, Z.leb_le, Z.eqb_eq. tauto. Qed.
+
+(* --- & | ~ stay inside int64 ------------------------------------------------------ *)
+(* z is an int64 iff all its bits from position 63 up equal its sign *)
+Lemma in64_bits z : in64 z <-> (forall i, 63 <= i -> Z.testbit z i = (z <? 0)).
+Proof.
+  unfold in64. split.
+  - intros [Lo Hi] i Hi63. destruct (Z.ltb_spec z 0) as [N|P].
+    + (* negative: lnot z in [0, 2^63) *)
+      rewrite <- (Z.lnot_involutive z). rewrite Z.lnot_spec by lia. 
+      assert (B : 0 <= Z.lnot z < 2 ^ 63) by (unfold Z.lnot; lia).
+      destruct (Z.eq_dec (Z.lnot z) 0) as [E|NE].
+      * rewrite E. now rewrite Z.testbit_0_l.
+      * rewrite Z.bits_above_log2; [reflexivity|lia|].
+        assert (Z.log2 (Z.lnot z) < 63) by (apply Z.log2_lt_pow2; lia). lia.
+    + destruct (Z.eq_dec z 0) as [->|NE]; [now rewrite Z.testbit_0_l|].
+      apply Z.bits_above_log2; [lia|].
+      assert (Z.log2 z < 63) by (apply Z.log2_lt_pow2; lia). lia.
+  - intros B. destruct (Z.ltb_spec z 0) as [N|P].
+    + split; [|lia]. 
+      assert (0 <= Z.lnot z) by (unfold Z.lnot; lia).
+      assert (Z.lnot z < 2 ^ 63); [|unfold Z.lnot in *; lia].
+      destruct (Z.eq_dec (Z.lnot z) 0) as [E|NE]; [rewrite E; lia|].
+      apply Z.log2_lt_pow2; [lia|].
+      destruct (Z_lt_le_dec (Z.log2 (Z.lnot z)) 63) as [L|L]; [exact L|exfalso].
+      pose proof (Z.bit_log2 (Z.lnot z) ltac:(lia)) as T.
+      rewrite Z.lnot_spec in T by (apply Z.log2_nonneg).
+      rewrite (B _ L) in T. discriminate.
+    + split; [lia|].
+      destruct (Z.eq_dec z 0) as [->|NE]; [lia|].
+      apply Z.log2_lt_pow2; [lia|].
+      destruct (Z_lt_le_dec (Z.log2 z) 63) as [L|L]; [exact L|exfalso].
+      pose proof (Z.bit_log2 z ltac:(lia)) as T. rewrite (B _ L) in T. discriminate.
+Qed.
+
+Lemma sign_testbit z i : in64 z -> 63 <= i -> Z.testbit z i = (z <? 0).
+Proof. intros H. now apply in64_bits. Qed.
+
+Lemma neg_iff_high_bit z : in64 z -> (z <? 0) = Z.testbit z 63.
+Proof. intros H. symmetry. apply in64_bits; [exact H|lia]. Qed.
+
+Theorem bitwise_closed a b : in64 a -> in64 b ->
+  in64 (and64 a b) /\ in64 (or64 a b) /\ in64 (xor64 a b) /\ in64 (not64 a).
+Proof.
+  intros Ha Hb. unfold and64, or64, xor64, not64.
+  pose proof (proj1 (in64_bits a) Ha) as Ba. pose proof (proj1 (in64_bits b) Hb) as Bb.
+  assert (S63 : forall z, (forall i, 63 <= i -> Z.testbit z i = Z.testbit z 63) -> in64 z).
+  { intros z H. apply in64_bits. intros i Hi. rewrite (H i Hi).
+    destruct (Z.ltb_spec z 0) as [N|P].
+    - destruct (Z.testbit z 63) eqn:T; [reflexivity|exfalso].
+      (* all bits from 63 up are 0, so z is non-negative *)
+      assert (0 <= z); [|lia]. apply Z.bits_iff_nonneg_ex. exists 63. intros m Hm. rewrite H by lia. reflexivity.
+    - destruct (Z.testbit z 63) eqn:T; [exfalso|reflexivity].
+      assert (z < 0); [|lia]. apply Z.bits_iff_neg_ex. exists 63. intros m Hm. rewrite H by lia. reflexivity. }
+  split; [|split; [|split]]; apply S63; intros i Hi.
+  - rewrite !Z.land_spec, (Ba i Hi), (Bb i Hi), (Ba 63), (Bb 63) by lia. reflexivity.
+  - rewrite !Z.lor_spec, (Ba i Hi), (Bb i Hi), (Ba 63), (Bb 63) by lia. reflexivity.
+  - rewrite !Z.lxor_spec, (Ba i Hi), (Bb i Hi), (Ba 63), (Bb 63) by lia. reflexivity.
+  - rewrite !Z.lnot_spec, (Ba i Hi), (Ba 63) by lia. reflexivity.
+Qed.
